@@ -7,12 +7,16 @@ func init() {
 }
 
 // c19Doc: documents that evaluation has something to do with.
-func c19Doc(i int) any {
+func c19Doc(i int, symbolic bool) any {
 	var c any = "tok"
-	if vTier() > 0 || i == 0 {
+	if vTier() > 0 || symbolic {
 		c = ndScalarNN()
 	}
-	switch ndChoice(7) {
+	switch ndChoice(9) {
+	case 7: // a forward cross-document reference into a subtree that itself holds a $merge
+		return map[string]any{"h": map[string]any{"$replace": []any{map[string]any{"id": 2}, "tmpl"}}, "k": c}
+	case 8: // the document such a reference points into
+		return map[string]any{"id": 2, "base": map[string]any{"x": c}, "tmpl": map[string]any{"$merge": "base", "y": 3}}
 	case 0:
 		return map[string]any{"t": map[string]any{"x": c}, "h": map[string]any{"$merge": "t", "y": 1}}
 	case 1:
@@ -32,7 +36,9 @@ func c19Doc(i int) any {
 
 // c19Layer: an upper layer for document kind k.
 func c19Layer() any {
-	switch ndChoice(3) {
+	switch ndChoice(4) {
+	case 3:
+		return map[string]any{"base": map[string]any{"x": "rebased"}}
 	case 0:
 		return map[string]any{"extra": 1}
 	case 1:
@@ -73,7 +79,7 @@ func HarnessC19_history() {
 	ndocs := 1 + ndChoice(2)
 	var lastP, lastT *Document
 	for i := 0; i < ndocs; i++ {
-		d := c19Doc(i)
+		d := c19Doc(i, ndocs == 1)
 		vObserve("doc"+string(rune('0'+i)), d)
 		dp := NewDocumentWithData("d"+string(rune('0'+i)), vCopy(d))
 		dt := NewDocumentWithData("d"+string(rune('0'+i)), vCopy(d))
